@@ -439,13 +439,16 @@ class Engine:
                 tooled.append((path, rec))
             recs.append(rec)
         texts = reference_all([p for p, _ in tooled])
-        diags = readelf_diag_all([p for p, _ in tooled], both=thorough)
+        diags = readelf_diag_all([p for p, _ in (tooled[::3] if thorough else tooled)], both=thorough)
         for path, rec in tooled:
             ref = reference(texts.get(path), BITS.get(rec["arch"], 32))
             if ref is not None:
                 rec["ref"] = ref
                 nref += 1
-            diag = diags.get(path, [])
+            if path not in diags:
+                os.unlink(path)
+                continue
+            diag = diags[path]
             aux["files"] += 1
             if diag:
                 aux["diagnosed"] += 1
